@@ -202,7 +202,46 @@ def _obsrel(d, name):
             recs = [list(tsdb.split(line)) for line in fh]
     except tsdb.TSDBError:
         recs = None
-    return {"tx": tx, "gz": gz, "recs": recs}
+    return {"tx": tx, "gz": gz, "recs": recs, "alt_bad": _alt_reads(d, name, recs)}
+
+
+def _alt_reads(d, name, recs):
+    """the same relation through the Database interfaces: raw records, autocast records and a
+    column selection must all show the records the file holds"""
+    import os
+    import warnings
+    from delphin import tsdb
+    if recs is None or not os.path.isfile(os.path.join(d, "relations")):
+        return None
+    try:
+        with warnings.catch_warnings():
+            warnings.simplefilter("ignore")
+            db = tsdb.Database(d)
+            if name not in db.schema:
+                return None
+            fields = db.schema[name]
+            if any(len(r) != len(fields) for r in recs):
+                return None
+            raw = [list(r) for r in db[name]]
+            if raw != recs:
+                return "Database[%r] yields %r, the file holds %r" % (name, raw, recs)
+            try:
+                want = [[tsdb.cast(f.datatype, v) for f, v in zip(fields, r)] for r in recs]
+            except ValueError:
+                return None          # ill-typed stored text: casting is outside the claim
+            got = [list(r) for r in tsdb.Database(d, autocast=True)[name]]
+            if got != want:
+                return "autocast Database[%r] yields %r, expected %r" % (name, got, want)
+            for k, f in enumerate(fields):
+                col = [list(r) for r in db.select_from(name, [f.name])]
+                if col != [[r[k]] for r in recs]:
+                    return "select_from(%r, [%r]) yields %r" % (name, f.name, col)
+                colc = [list(r) for r in db.select_from(name, [f.name], cast=True)]
+                if colc != [[r[k]] for r in want]:
+                    return "select_from(%r, [%r], cast=True) yields %r" % (name, f.name, colc)
+    except tsdb.TSDBError as e:
+        return "reading %r through Database raised %s" % (name, e)
+    return None
 
 
 def _run_writes(c):
@@ -334,6 +373,8 @@ def oracle(c):
                     return "after a write plain=%s and compressed=%s files exist" % (s["tx"], s["gz"])
                 if s["gz"] != compressed:
                     return "compressed form %s but requested/non-empty is %s" % (s["gz"], compressed)
+            if s.get("alt_bad"):
+                return s["alt_bad"]
             if (s["recs"] is not None or content) and s["recs"] != content:
                 if not (s["recs"] is None and not content and not s["tx"] and not s["gz"]):
                     return "stored records %r differ from the written history %r" % (s["recs"], content)
